@@ -2,7 +2,11 @@
 #[macro_use]
 mod drive;
 mod c01;
+mod c02;
+mod c03;
+mod c04;
 mod c05;
+mod c06;
 mod methods;
 mod problems;
 
@@ -10,7 +14,11 @@ fn main() {
     let opts = bverif::engine::parse_args();
     let code = match opts.prop.as_str() {
         "C01" => c01::run(&opts),
+        "C02" => c02::run(&opts),
+        "C03" => c03::run(&opts),
+        "C04" => c04::run(&opts),
         "C05" => c05::run(&opts),
+        "C06" => c06::run(&opts),
         p => {
             eprintln!("ivp: unknown property {p}");
             2
